@@ -60,6 +60,11 @@ pub struct ChordsForKeys<'a, T> {
 
 const SMOL_Q_LEN: usize = 16;
 
+/// The largest number of participating keys that a chord can have: the pressed and the
+/// not-yet-released participants of a chord are tracked in lists of this length, so a chord with
+/// more keys could never activate. Configuration parsers should refuse such chords.
+pub const MAX_CHORD_PARTICIPANTS: usize = SMOL_Q_LEN;
+
 struct ActiveChord<'a, T> {
     /// Chords uses a virtual coordinate in the keyberon state for an activated chord.
     /// This field tracks which coordinate to release when the chord itself is released.
